@@ -187,7 +187,7 @@ fn base_inputs(o: &Opts, rng: &mut Rng) -> Vec<f32> {
 /// dense strided sweep over all f32 in [0,1]; returns the worst-looking input of each stratum
 fn screened(t: u8, dir: &str, o: &Opts, rng: &mut Rng, rt: bool) -> (Vec<f32>, u64) {
     let top = 1.0f32.to_bits(); // 0x3f800000: floats in [0,1] are bit patterns 0..=top
-    let (stride, strata) = if o.thorough { (16u32, 4096usize) } else { (2048u32, 192usize) };
+    let (stride, strata) = if o.thorough { (16u32, 4096usize) } else { (256u32, 256usize) };
     let ph = rng.below(u64::from(stride)) as u32;
     let per = (top as usize / strata) + 1;
     let mut worst: Vec<(f64, f32)> = vec![(-1.0, 0.0); strata];
